@@ -24,7 +24,8 @@ impl Kdf for AesKdf {
         &self,
         composite_key: &GenericArray<u8, U32>,
     ) -> Result<GenericArray<u8, U32>, CryptographyError> {
-        let cipher = Aes256::new(&GenericArray::clone_from_slice(&self.seed));
+        // the seed comes from the file: it must have the size of an AES-256 key
+        let cipher = Aes256::new_from_slice(&self.seed)?;
         let mut block1 = GenericArray::clone_from_slice(&composite_key[..16]);
         let mut block2 = GenericArray::clone_from_slice(&composite_key[16..]);
         for _ in 0..self.rounds {
